@@ -2755,3 +2755,293 @@ func E5FilterApplied(c *core.Ctx, r *core.Report) {
 	r.Count("E5.self-encoded-filters", n)
 	r.Floor("E5.self-encoded-filters", 2)
 }
+
+// emitPath is one path through a function body: the outcomes assumed for its conditions and what it wrote.
+type emitPath struct {
+	assume map[string]bool
+	vars   map[types.Object]string
+	text   string
+	dead   bool // ended by return
+}
+
+func (p emitPath) clone() emitPath {
+	q := emitPath{assume: map[string]bool{}, vars: map[types.Object]string{}, text: p.text, dead: p.dead}
+	for k, v := range p.assume {
+		q.assume[k] = v
+	}
+	for k, v := range p.vars {
+		q.vars[k] = v
+	}
+	return q
+}
+
+// emitPaths enumerates the paths through stmts that differ in what they write to the stream: an if statement is
+// split only when its subtree writes to the stream or assigns a string local; conditions already decided on the
+// path are not split again; a constant fragment is appended literally, anything else that reaches the stream as "¤".
+func emitPaths(info *types.Info, stmts []ast.Stmt, in []emitPath, isStream func(ast.Expr) bool) []emitPath {
+	relevant := func(n ast.Node) bool {
+		hit := false
+		ast.Inspect(n, func(m ast.Node) bool {
+			switch x := m.(type) {
+			case *ast.CallExpr:
+				if se, ok := x.Fun.(*ast.SelectorExpr); ok && isStream(se.X) {
+					hit = true
+				}
+			case *ast.AssignStmt:
+				for _, l := range x.Lhs {
+					if id, ok := l.(*ast.Ident); ok {
+						if b, ok := info.TypeOf(id).Underlying().(*types.Basic); ok && b.Kind() == types.String {
+							hit = true
+						}
+					}
+				}
+			case *ast.ReturnStmt:
+				hit = true
+			}
+			return !hit
+		})
+		return hit
+	}
+	condKey := func(e ast.Expr) (string, bool) {
+		e = core.Unparen(e)
+		neg := false
+		for {
+			u, ok := e.(*ast.UnaryExpr)
+			if !ok || u.Op != token.NOT {
+				break
+			}
+			neg = !neg
+			e = core.Unparen(u.X)
+		}
+		return types.ExprString(e), !neg
+	}
+	var write func(p *emitPath, call *ast.CallExpr)
+	write = func(p *emitPath, call *ast.CallExpr) {
+		se := call.Fun.(*ast.SelectorExpr)
+		if (se.Sel.Name == "Write" || se.Sel.Name == "WriteString") && len(call.Args) == 1 {
+			arg := core.Unparen(call.Args[0])
+			if conv, isCall := arg.(*ast.CallExpr); isCall && len(conv.Args) == 1 {
+				if tv, isT := info.Types[conv.Fun]; isT && tv.IsType() {
+					arg = core.Unparen(conv.Args[0])
+				}
+			}
+			if s, ok := constString(info, arg); ok {
+				p.text += s
+				return
+			}
+			if id, ok := arg.(*ast.Ident); ok {
+				if s, ok := p.vars[core.ObjOf(info, id)]; ok {
+					p.text += s
+					return
+				}
+			}
+			p.text += "¤"
+			return
+		}
+		p.text += " ¤ "
+	}
+	var stmt func(s ast.Stmt, ps []emitPath) []emitPath
+	block := func(list []ast.Stmt, ps []emitPath) []emitPath {
+		for _, s := range list {
+			ps = stmt(s, ps)
+		}
+		return ps
+	}
+	stmt = func(s ast.Stmt, ps []emitPath) []emitPath {
+		if len(ps) > 4096 {
+			return ps
+		}
+		switch x := s.(type) {
+		case *ast.ExprStmt:
+			if call, ok := x.X.(*ast.CallExpr); ok {
+				if se, ok := call.Fun.(*ast.SelectorExpr); ok && isStream(se.X) {
+					for i := range ps {
+						if !ps[i].dead {
+							write(&ps[i], call)
+						}
+					}
+				}
+			}
+		case *ast.AssignStmt:
+			for i := range ps {
+				if ps[i].dead {
+					continue
+				}
+				for k, l := range x.Lhs {
+					id, ok := l.(*ast.Ident)
+					if !ok {
+						continue
+					}
+					o := core.ObjOf(info, id)
+					prev, had := ps[i].vars[o]
+					delete(ps[i].vars, o)
+					if len(x.Lhs) == len(x.Rhs) {
+						if sv, ok := constString(info, x.Rhs[k]); ok {
+							switch {
+							case x.Tok == token.ASSIGN || x.Tok == token.DEFINE:
+								ps[i].vars[o] = sv
+							case x.Tok == token.ADD_ASSIGN && had:
+								ps[i].vars[o] = prev + sv
+							}
+						}
+					}
+					for c := range ps[i].assume {
+						if condMentions(c, id.Name) {
+							delete(ps[i].assume, c)
+						}
+					}
+				}
+			}
+		case *ast.ReturnStmt:
+			for i := range ps {
+				ps[i].dead = true
+			}
+		case *ast.BlockStmt:
+			return block(x.List, ps)
+		case *ast.IfStmt:
+			if x.Init != nil {
+				ps = stmt(x.Init, ps)
+			}
+			if !relevant(x) {
+				return ps
+			}
+			key, pos := condKey(x.Cond)
+			var out []emitPath
+			for _, p := range ps {
+				if p.dead {
+					out = append(out, p)
+					continue
+				}
+				v, known := p.assume[key]
+				for _, take := range []bool{true, false} {
+					if known && v != (take == pos) {
+						continue
+					}
+					q := p.clone()
+					if pureCond(x.Cond) {
+						q.assume[key] = take == pos
+					}
+					if take {
+						out = append(out, block(x.Body.List, []emitPath{q})...)
+					} else if x.Else != nil {
+						out = append(out, stmt(x.Else, []emitPath{q})...)
+					} else {
+						out = append(out, q)
+					}
+				}
+			}
+			return out
+		}
+		return ps
+	}
+	return block(stmts, in)
+}
+
+// E5ClosedPaintOperator: the PDF operator that strokes the stripped path data closes it exactly when it was closed.
+func E5ClosedPaintOperator(c *core.Ctx, r *core.Report) {
+	r.Rule("E5.closed-paint-operator", "PDF.RenderPath cuts a trailing `h` (close path) off the path data and remembers it in a boolean; the path is then closed by the painting operator. On every path through the function that writes a stroking operator (S s B B* b b*), the operator is a closing one (s, b, b*) exactly when that boolean is true on the path, and no such operator is written on a path that has not tested it. With `B*` after the stripped data the area is filled but the closing segment and the join at the start are not stroked; with `s` on an open path a segment is added")
+	p := c.MustPkg(pdfRel)
+	info := p.TypesInfo
+	fd := core.MustFuncDecl(p, "PDF.RenderPath")
+	r.Func("pdf.PDF.RenderPath")
+	// the boolean: set to true in the branch taken when the data ends in 'h', where the data is cut
+	var closed types.Object
+	ast.Inspect(fd.Body, func(m ast.Node) bool {
+		is, ok := m.(*ast.IfStmt)
+		if !ok {
+			return true
+		}
+		hasH := false
+		ast.Inspect(is.Cond, func(k ast.Node) bool {
+			if e, ok := k.(ast.Expr); ok {
+				if v, isInt := core.ConstInt(info, e); isInt && v == 'h' {
+					hasH = true
+				}
+			}
+			return true
+		})
+		if !hasH {
+			return true
+		}
+		cut := false
+		var flag types.Object
+		for _, s := range is.Body.List {
+			as, ok := s.(*ast.AssignStmt)
+			if !ok || len(as.Lhs) != 1 || len(as.Rhs) != 1 {
+				continue
+			}
+			if _, ok := core.Unparen(as.Rhs[0]).(*ast.SliceExpr); ok {
+				cut = true
+			}
+			if id, ok := core.Unparen(as.Rhs[0]).(*ast.Ident); ok && id.Name == "true" {
+				if l, ok := as.Lhs[0].(*ast.Ident); ok {
+					flag = core.ObjOf(info, l)
+				}
+			}
+		}
+		if cut && flag != nil {
+			closed = flag
+		}
+		return true
+	})
+	if closed == nil {
+		r.Fail("E5.closed-paint-operator", "pdf.PDF.RenderPath|flag", c.Pos(fd.Pos()), "the branch that cuts the trailing `h` off the path data and records it in a boolean was not found; the rule cannot be decided")
+		return
+	}
+	isStream := func(e ast.Expr) bool { return pdfGrammar.isStream(info, e) }
+	paths := emitPaths(info, fd.Body.List, []emitPath{{assume: map[string]bool{}, vars: map[types.Object]string{}}}, isStream)
+	closing := map[string]bool{"s": true, "b": true, "b*": true}
+	stroking := map[string]bool{"S": true, "B": true, "B*": true, "s": true, "b": true, "b*": true}
+	type verdict struct {
+		ok  bool
+		msg string
+	}
+	seen := map[string]verdict{}
+	n := 0
+	for _, pth := range paths {
+		for _, tok := range strings.Fields(pth.text) {
+			if !stroking[tok] {
+				continue
+			}
+			n++
+			v, known := pth.assume[closed.Name()]
+			state := "untested"
+			if known && v {
+				state = "true"
+			} else if known {
+				state = "false"
+			}
+			key := fmt.Sprintf("pdf.PDF.RenderPath|operator %s with %s %s", tok, closed.Name(), state)
+			var conds []string
+			for k, b := range pth.assume {
+				conds = append(conds, fmt.Sprintf("%s=%v", k, b))
+			}
+			sort.Strings(conds)
+			switch {
+			case !known:
+				seen[key] = verdict{false, fmt.Sprintf("a path (%s) writes the stroking operator `%s` without having tested `%s`: the trailing `h` was cut off the data of a closed path, so whether the stroke closes depends on this operator alone, and it is wrong for either the closed or the open paths", strings.Join(conds, ", "), tok, closed.Name())}
+			case v != closing[tok]:
+				seen[key] = verdict{false, fmt.Sprintf("on a path with %s the stroking operator written is `%s` (path conditions: %s): %s", closed.Name()+"="+state, tok, strings.Join(conds, ", "), map[bool]string{true: "the `h` was cut off the data, so the closing segment and the join at the start point are not stroked", false: "the operator closes a path that was open, adding a segment"}[v])}
+			default:
+				if _, dup := seen[key]; !dup {
+					seen[key] = verdict{true, ""}
+				}
+			}
+		}
+	}
+	var keys []string
+	for k := range seen {
+		keys = append(keys, k)
+	}
+	sort.Strings(keys)
+	for _, k := range keys {
+		if seen[k].ok {
+			r.OK("E5.closed-paint-operator", k, c.Pos(fd.Pos()), "")
+		} else {
+			r.Fail("E5.closed-paint-operator", k, c.Pos(fd.Pos()), seen[k].msg)
+		}
+	}
+	r.Count("E5.closed-paint-operator:paths", len(paths))
+	r.Count("E5.closed-paint-operator", n)
+	r.Floor("E5.closed-paint-operator", 6)
+}
